@@ -59,7 +59,7 @@ func init() {
 	def("C17", "exploration", "family 'offline': zone layouts, caps, lag scripts around both thresholds, broken replication, resetup status; per-pass policy constraints."+nt, familyPlan{"offline", 300, 6000, false})
 	def("C18", "exploration", "family 'disk': usage scripts for master and semi-sync replicas through the three zones; hysteresis table vs read_only statements."+nt, familyPlan{"disk", 300, 6000, false})
 	def("C19", "exploration", "family 'optimization': registries, lag scripts, CLI enable/disable interleaved with syncs, switchovers to lagging replicas."+nt, familyPlan{"optimization", 300, 6000, false})
-	def("C20", "exploration", "family 'chaos': long runs with everything at once + tool-only tree contents; process death, goroutine/connection growth in steady runs, race detector build."+nt, familyPlan{"chaos", 60, 1200, false}, familyPlan{"chaos", 8, 200, true})
+	def("C20", "exploration", "family 'chaos': long runs with everything at once + tool-only tree contents; process death, goroutine/connection growth in steady runs, race detector build."+nt, familyPlan{"chaos", 60, 1200, false}, familyPlan{"chaos", 8, 64, true})
 }
 
 type knownFinding struct {
@@ -365,7 +365,11 @@ func cmdCheck(id, tier string) int {
 		if o.res == nil {
 			v, why := classifyDeathFor(o, id)
 			if v == nil {
-				harnessTrouble = append(harnessTrouble, fmt.Sprintf("%s index %d: %s", jobs[i].fam.family, jobs[i].index, why))
+				rb := ""
+				if jobs[i].fam.race {
+					rb = " (race build)"
+				}
+				harnessTrouble = append(harnessTrouble, fmt.Sprintf("%s%s index %d: %s", jobs[i].fam.family, rb, jobs[i].index, why))
 				continue
 			}
 			if v.Property == id {
